@@ -7,12 +7,13 @@ MAP = {
  "C07": ["C07"], "C08": ["C08"], "C09": ["C09", "C13"], "C10": ["C10", "C13", "C04"], "C11": ["C11", "C13"], "C12": ["C12", "C11"],
  "C13": ["C13", "C11"], "C14": ["C14"], "C15": ["C15", "C03"], "C16": ["C16", "C02"], "C17": ["C17", "C03"], "C18": ["C18"], "C19": ["C19"],
 }
-out_dir = "/root/scratch/matrix"
+out_dir = os.environ.get("MATRIXDIR", "/root/scratch/matrix")
+MUTROOT = os.environ.get("MUTROOT", "/tmp/mut")
 os.makedirs(out_dir, exist_ok=True)
 only = sys.argv[1:]
 for c in sorted(MAP):
     for n in (1, 2):
-        d = "/tmp/mut/%s/out/%d" % (c, n)
+        d = "%s/%s/out/%d" % (MUTROOT, c, n)
         patch = os.path.join(d, "patch.ported.diff") if os.path.exists(os.path.join(d, "patch.ported.diff")) else os.path.join(d, "patch.diff")
         if not os.path.exists(patch) or (only and "%s-%d" % (c, n) not in only):
             continue
